@@ -652,6 +652,24 @@ func ctPool(r *rec.Rand, s *scen.Scenario) []scen.Tuple {
 	return pool
 }
 
+// worldKey identifies the part of the cache key a world contributes (model version, context,
+// contextual tuples): an absent context and an empty one are the same request, contextual tuples
+// are a set.
+func worldKey(w World) string {
+	ctx := map[string]any{}
+	if w.HasCtx && w.Ctx != nil {
+		ctx = w.Ctx
+	}
+	var cts []string
+	for _, t := range w.CT {
+		b, _ := json.Marshal(t)
+		cts = append(cts, string(b))
+	}
+	sort.Strings(cts)
+	b, _ := json.Marshal([]any{w.Model, ctx, cts})
+	return string(b)
+}
+
 func makePlan(r *rec.Rand, s *scen.Scenario, tier string) *Plan {
 	p := &Plan{Depth: 25, Limit: 10000, TTL: "long", V2Strat: rec.Pick(r, []string{"default", "default", "weight2", "recursive"}),
 		V2Conc: rec.Pick(r, []int{1, 2, 10, 100}), Runs: 2, Engines: []int{0, 1}}
@@ -695,7 +713,15 @@ func makePlan(r *rec.Rand, s *scen.Scenario, tier string) *Plan {
 				w.CT = append(w.CT, pool[(i*2+j)%len(pool)])
 			}
 		}
-		p.Worlds = append(p.Worlds, w)
+		dup := false
+		for _, x := range p.Worlds {
+			if worldKey(x) == worldKey(w) {
+				dup = true
+			}
+		}
+		if !dup {
+			p.Worlds = append(p.Worlds, w)
+		}
 	}
 	// subjects
 	var users []string
@@ -861,6 +887,10 @@ func runCase(ctx context.Context, w *rec.Writer, s *scen.Scenario, p *Plan) {
 	if err != nil {
 		if errors.Is(err, scen.ErrModelRejected) {
 			w.Stat("models_rejected", 1)
+			w.Stat("models_rejected_"+s.Shape, 1)
+			if os.Getenv("C08_DEBUG") != "" {
+				fmt.Fprintf(os.Stderr, "rejected %s: %v\n", s.Shape, err)
+			}
 			return
 		}
 		panic(err)
@@ -887,6 +917,23 @@ func runCase(ctx context.Context, w *rec.Writer, s *scen.Scenario, p *Plan) {
 			p.Worlds[i].Model = 0
 		}
 		p.ModelB = nil
+	}
+	// worlds with the same cache-key contribution are one world
+	remap := make([]int, len(p.Worlds))
+	for i := range p.Worlds {
+		remap[i] = i
+		for j := 0; j < i; j++ {
+			if worldKey(p.Worlds[j]) == worldKey(p.Worlds[i]) {
+				remap[i] = j
+				break
+			}
+		}
+	}
+	for si := range p.Steps {
+		p.Steps[si].Item.W = remap[p.Steps[si].Item.W]
+		for ii := range p.Steps[si].Items {
+			p.Steps[si].Items[ii].W = remap[p.Steps[si].Items[ii].W]
+		}
 	}
 	if len(p.Steps) == 0 {
 		w.Stat("empty_histories", 1)
